@@ -184,6 +184,75 @@ func checkExposureSections(format, out string, conns []connlist.Peer2PeerConnect
 					want = append(want, fmt.Sprint(it.PotentialConnectivity()))
 				}
 			}
+			// the other end of an entry is written by the shape of its selectors: entire-cluster | NS/POD with
+			// NS = [all namespaces] (empty selector) | the bare name (exactly the name label) | [namespace with {...}],
+			// POD = [all pods] (empty selector) | [pod with {...}]; the shapes printed are the shapes of the entries
+			if prot {
+				var wantShapes, gotShapes []string
+				for _, it := range items {
+					if it.IsExposedToEntireCluster() {
+						wantShapes = append(wantShapes, "entire-cluster")
+						continue
+					}
+					nsl, pl := it.NamespaceLabels(), it.PodLabels()
+					nsShape := "[namespace with"
+					if nsl.Size() == 0 {
+						nsShape = "[all namespaces]"
+					} else if _, ok := nsl.MatchLabels["kubernetes.io/metadata.name"]; ok && len(nsl.MatchLabels) == 1 && len(nsl.MatchExpressions) == 0 {
+						nsShape = "name"
+					}
+					podShape := "[pod with"
+					if pl.Size() == 0 {
+						podShape = "[all pods]"
+					}
+					wantShapes = append(wantShapes, nsShape+"/"+podShape)
+				}
+				for _, r := range rows {
+					if r.dir != dir || r.peer != p || ipRange.MatchString(r.other) {
+						continue
+					}
+					if r.other == "entire-cluster" {
+						gotShapes = append(gotShapes, "entire-cluster")
+						continue
+					}
+					nsShape, podShape := "name", "[pod with"
+					switch {
+					case strings.HasPrefix(r.other, "[all namespaces]/"):
+						nsShape = "[all namespaces]"
+					case strings.HasPrefix(r.other, "[namespace with"):
+						nsShape = "[namespace with"
+					}
+					if strings.HasSuffix(r.other, "/[all pods]") {
+						podShape = "[all pods]"
+					}
+					gotShapes = append(gotShapes, nsShape+"/"+podShape)
+				}
+				sort.Strings(wantShapes)
+				sort.Strings(gotShapes)
+				if format != "dot" && strings.Join(wantShapes, ";") != strings.Join(gotShapes, ";") {
+					return fmt.Sprintf("%s %s: the other ends are written as %v, the selectors of the entries have the shapes %v", p, dname, gotShapes, wantShapes)
+				}
+				// every numeric port range of an entry (structured accessors) appears in some row of that peer and direction
+				for _, it := range items {
+					for proto, ranges := range it.PotentialConnectivity().ProtocolsAndPortsMap() {
+						for _, pr := range ranges {
+							tok := fmt.Sprintf("%d", pr.Start())
+							if pr.Start() != pr.End() {
+								tok = fmt.Sprintf("%d-%d", pr.Start(), pr.End())
+							}
+							found := false
+							for _, r := range rows {
+								if r.dir == dir && r.peer == p && connHasPort(r.conn, string(proto), tok) {
+									found = true
+								}
+							}
+							if !found && !it.PotentialConnectivity().IsAllConnections() {
+								return fmt.Sprintf("%s %s: the entry's %s %s (ProtocolsAndPortsMap) is printed in no exposure row", p, dname, proto, tok)
+							}
+						}
+					}
+				}
+			}
 			g := append([]string{}, gotNonIP[dir+"|"+p]...)
 			sort.Strings(g)
 			sort.Strings(want)
@@ -311,4 +380,21 @@ func expectedDiffInfo(r diffRow) string {
 		s += r.dst
 	}
 	return s + " " + r.typ
+}
+
+// connHasPort: does a printed connection ("SCTP 1-3,TCP 80,http,UDP 53" | "All Connections") list the port token under the protocol
+func connHasPort(conn, proto, tok string) bool {
+	if conn == "All Connections" {
+		return true
+	}
+	cur := ""
+	for _, f := range strings.Split(conn, ",") {
+		if i := strings.Index(f, " "); i > 0 {
+			cur, f = f[:i], f[i+1:]
+		}
+		if cur == proto && f == tok {
+			return true
+		}
+	}
+	return false
 }
